@@ -59,11 +59,6 @@ Definition ERR_LEN : N := 3.
 Definition check_len (len expected : N) : outcome unit :=
   if len <? expected then Err ERR_LEN else Ok tt.
 
-(* wide_str after commit "wide string shorter than its length field": a buffer under 4 bytes is
-   an error too (Utf16.wide_str keeps the former panic of read_u32 there, now unreachable) *)
-Definition wide_str_chk (b : list N) : outcome (list N * N) :=
-  if lenN b <? 4 then Err ERR_WIDESTR else wide_str b.
-
 (* read_u8: read_exact of one byte; at the end of the part an UnexpectedEof error *)
 Definition read_u8 (s : list N) : outcome (N * list N) :=
   match s with
@@ -277,7 +272,7 @@ Definition record_step (typ : N) (buf : list N) : outcome cstep :=
     Ok (CCell (RVal (format_excel_f64 (rd 8 8 buf) (cell_fmt (e_formats en) buf) (e_1904 en))))
   else if (typ =? 6) || (typ =? 8) then                       (* BrtCellSt | BrtFmlaString *)
     if lenN buf <? 8 then Panic else
-    do w <- wide_str_chk (skipn 8 buf);
+    do w <- wide_str (skipn 8 buf);
     Ok (CCell (RVal (DString (fst w))))
   else if typ =? 7 then                                       (* BrtCellIsst *)
     if lenN buf <? 12 then Panic else
@@ -354,7 +349,7 @@ Fixpoint sst_items (fuel : nat) (count : N) (s buf : list N) : outcome (list (li
       match snd (fst a) with
       | [] => Panic                                           (* &buf[1..] on an empty buffer *)
       | _ :: tl =>
-          do w <- wide_str_chk tl;
+          do w <- wide_str tl;
           do more <- sst_items f (count - 1) (snd a) (snd (fst a));
           Ok (fst w :: more)
       end
